@@ -24,6 +24,9 @@ from sqlglot.optimizer.scope import find_in_scope
 from sqlglot.time import format_time
 from sqlglot.tokens import Token, Tokenizer, TokenType
 from sqlglot.trie import TrieResult, in_trie, new_trie
+from sqlglot import _verif
+
+_VERIF = _verif.ENABLED
 
 if t.TYPE_CHECKING:
     from re import Pattern
@@ -1989,6 +1992,9 @@ class Parser:
         self._node_count = 0
 
     def _advance(self, times: i64 = 1) -> None:
+        if _VERIF:
+            _verif.step("p")
+            _verif.emit("advance", index=self._index, times=times, size=self._tokens_size)
         index = self._index + times
         self._index = index
         tokens = self._tokens
@@ -2098,6 +2104,8 @@ class Parser:
             end_context=end_context,
         )
 
+        if _VERIF:
+            _verif.emit("raise_error", level=self.error_level.name, message=message)
         if self.error_level == ErrorLevel.IMMEDIATE:
             raise error
 
@@ -2118,6 +2126,8 @@ class Parser:
         error_level = self.error_level
         this: T | None = None
 
+        if _VERIF:
+            _verif.emit("try_enter", index=index, level=error_level.name)
         self.error_level = ErrorLevel.IMMEDIATE
         try:
             this = parse_method()
@@ -2127,6 +2137,14 @@ class Parser:
             if not this or retreat:
                 self._retreat(index)
             self.error_level = error_level
+            if _VERIF:
+                _verif.emit(
+                    "try_exit",
+                    index=self._index,
+                    level=self.error_level.name,
+                    ok=bool(this),
+                    retreat=retreat,
+                )
 
         return this
 
@@ -2184,6 +2202,8 @@ class Parser:
 
     def check_errors(self) -> None:
         """Logs or raises any found errors, depending on the chosen error level setting."""
+        if _VERIF:
+            _verif.emit("check_errors", level=self.error_level.name, errors=len(self.errors))
         if self.error_level == ErrorLevel.WARN:
             for error in self.errors:
                 logger.error(str(error))
